@@ -1,8 +1,291 @@
-import GoomVerif.Model.Reject
-namespace C13
-open Reject
+import GoomVerif.Lemmas.C13L
+/-!
+# C13 — configuration mistakes are rejected up front and leave nothing patched
 
-/-- walking the chain of the interface-argument error ends at `*erro.IllegalParam` (placeholder, replaced below) -/
-theorem walk_iface_args (g w : Nat) : walk [.traceable, .illegalParam, .argsNotMatch g w] = some .illegalParam := rfl
+All theorems are about `Model/Reject.lean` (a transcription of goom's validation points, tied to the real code by the
+differential run of `checks/C13.py`).  They quantify over **every** signature (slot lists of any length), every
+callback / value list, every origin placeholder, every function size and every prior state of the image and the
+`patches` registry.
+-/
+namespace C13
+open Reject C13L
+
+/-! ## A. `SignatureEquals`: exactly the count-and-size relation, and the reported slot is the first offender -/
+
+/-- signature.go:9 accepts **iff** both slot lists have pairwise equal sizes (which includes equal counts). -/
+theorem signatureEquals_ok_iff (a b : Sig) :
+    signatureEquals a b = .ok () ↔
+      a.ins.map (·.size) = b.ins.map (·.size) ∧ a.outs.map (·.size) = b.outs.map (·.size) := by
+  unfold signatureEquals
+  by_cases h1 : a.ins.length = b.ins.length
+  · by_cases h2 : a.outs.length = b.outs.length
+    · have e1 := firstSizeMismatch_none_iff a.ins b.ins 0 h1
+      have e2 := firstSizeMismatch_none_iff a.outs b.outs 0 h2
+      simp only [h1, h2, ne_eq, not_true_eq_false, if_false]
+      cases h3 : firstSizeMismatch a.ins b.ins 0 with
+      | some i =>
+        have : ¬ (a.ins.map (·.size) = b.ins.map (·.size)) := fun h => by simp [e1.2 h] at h3
+        simp [rStr, rej, this]
+      | none =>
+        cases h4 : firstSizeMismatch a.outs b.outs 0 with
+        | some i =>
+          have : ¬ (a.outs.map (·.size) = b.outs.map (·.size)) := fun h => by simp [e2.2 h] at h4
+          simp [rStr, rej, this]
+        | none => simp [e1.1 h3, e2.1 h4, pure, Except.pure]
+    · have : ¬ (a.outs.map (·.size) = b.outs.map (·.size)) := fun h => h2 (by simpa using congrArg List.length h)
+      simp [h1, h2, rStr, rej, this]
+  · have : ¬ (a.ins.map (·.size) = b.ins.map (·.size)) := fun h => h1 (by simpa using congrArg List.length h)
+    simp [h1, rStr, rej, this]
+
+/-- when a parameter size is blamed, it is the first parameter whose size differs (signature.go:19-24) -/
+theorem signatureEquals_blames_first_arg (a b : Sig) (i : Nat) (ch : List ErrT)
+    (h : signatureEquals a b = .error ⟨.sigArgSize i, ch⟩) :
+    (∃ x y, a.ins[i]? = some x ∧ b.ins[i]? = some y ∧ x.size ≠ y.size) ∧
+    (∀ j, j < i → ∃ x y, a.ins[j]? = some x ∧ b.ins[j]? = some y ∧ x.size = y.size) ∧ ch = [.str] := by
+  unfold signatureEquals at h
+  split at h
+  · simp [rStr, rej] at h
+  · split at h
+    · simp [rStr, rej] at h
+    · split at h
+      · rename_i k hk
+        simp only [rStr, rej, Except.error.injEq, Rej.mk.injEq, Cls.sigArgSize.injEq] at h
+        obtain ⟨rfl, rfl⟩ := h
+        have := firstSizeMismatch_some _ _ _ _ hk
+        simpa using this
+      · split at h
+        · simp [rStr, rej] at h
+        · simp [pure, Except.pure] at h
+
+example : signatureEquals ⟨[⟨.int, 8, 1, false, 0⟩, ⟨.str, 16, 2, false, 0⟩], [], false, default⟩
+    ⟨[⟨.int, 8, 1, false, 0⟩, ⟨.int, 8, 1, false, 0⟩], [], false, default⟩ = .error ⟨.sigArgSize 1, [.str]⟩ := by rfl
+
+/-! ## B. A rejected call writes nothing, mocks nothing, and leaves at most one inert registry entry -/
+
+/-- `unpatchValue` never mocks anything and only writes for an applied guard -/
+theorem unpatchValue_facts (g : G) (t : Nat) :
+    (∀ f, mocked (unpatchValue g t) f = true → mocked g f = true) ∧ (unpatchValue g t).tramp = g.tramp ∧
+    (unpatchValue g t).patches = upd g.patches t none ∧
+    ((∀ e, g.patches t = some e → e.applied = false) → (unpatchValue g t).text = g.text ∧ (unpatchValue g t).writes = g.writes) := by
+  unfold unpatchValue
+  cases h : g.patches t with
+  | none =>
+    refine ⟨fun _ h => h, rfl, ?_, fun _ => ⟨rfl, rfl⟩⟩
+    funext x; by_cases hx : x = t <;> simp [upd, hx, h]
+  | some e =>
+    by_cases ha : e.applied = true
+    · simp only [ha, if_true]
+      refine ⟨?_, ?_, ?_, ?_⟩
+      · intro f; by_cases hf : f = t <;> simp [mocked, upd, hf]
+      · trivial
+      · trivial
+      · intro hh; simpa [ha] using hh e rfl
+    · simp only [ha, if_false]
+      refine ⟨fun _ h => h, ?_, ?_, fun _ => ⟨?_, ?_⟩⟩ <;> first | rfl | trivial
+
+/-- patch.go:102: whatever way `replaceFunc` fails, no placeholder was written, no target became mocked, the only
+    registry change is the entry `⟨repl, incomplete, not applied⟩` for this very target, and — unless an APPLIED patch of the
+    same target was registered before (which line 106 removes first) — no byte was written at all. -/
+theorem replaceFunc_rejected (g g' : G) (t fs repl : Nat) (tr : Option Tramp) (e : Rej)
+    (h : replaceFunc g t fs repl tr = (g', .error e)) :
+    g'.tramp = g.tramp ∧ (∀ f, mocked g' f = true → mocked g f = true) ∧
+    g'.patches = upd g.patches t (some ⟨repl, false, false⟩) ∧
+    ((∀ p, g.patches t = some p → p.applied = false) → g'.text = g.text ∧ g'.writes = g.writes) ∧
+    (e.cls = .funcSmall ∨ e.cls = .alreadyPatched ∨ e.cls = .trampSmall) := by
+  have hu := unpatchValue_facts g t
+  -- the state after lines 106-109
+  have key : ∀ g1 : G, g1 = (if (g.patches t).isSome then unpatchValue g t else g) →
+      (∀ f, mocked g1 f = true → mocked g f = true) ∧ g1.tramp = g.tramp ∧
+      upd g1.patches t (some (⟨repl, false, false⟩ : PatchE)) = upd g.patches t (some ⟨repl, false, false⟩) ∧
+      ((∀ p, g.patches t = some p → p.applied = false) → g1.text = g.text ∧ g1.writes = g.writes) := by
+    intro g1 hg1
+    by_cases hp : (g.patches t).isSome
+    · simp only [hp, if_true] at hg1
+      subst hg1
+      refine ⟨hu.1, hu.2.1, ?_, hu.2.2.2⟩
+      rw [hu.2.2.1]; funext x; by_cases hx : x = t <;> simp [upd, hx]
+    · simp only [hp] at hg1
+      subst hg1
+      exact ⟨fun _ h => h, rfl, rfl, fun _ => ⟨rfl, rfl⟩⟩
+  unfold replaceFunc at h
+  generalize hg1 : (if (g.patches t).isSome then unpatchValue g t else g) = g1 at h
+  obtain ⟨k1, k2, k3, k4⟩ := key g1 hg1.symm
+  simp only at h
+  by_cases c1 : jumpLen ≥ fs
+  · simp only [c1, if_true, Prod.mk.injEq, rej, Except.error.injEq] at h
+    obtain ⟨rfl, rfl⟩ := h
+    exact ⟨k2, k1, k3, k4, Or.inl rfl⟩
+  · simp only [c1, if_false] at h
+    by_cases c2 : (g1.text t).isSome
+    · simp only [c2, if_true, Prod.mk.injEq, rej, Except.error.injEq] at h
+      obtain ⟨rfl, rfl⟩ := h
+      exact ⟨k2, k1, k3, k4, Or.inr (Or.inl rfl)⟩
+    · simp only [c2] at h
+      cases tr with
+      | none => simp [pure, Except.pure] at h
+      | some tr =>
+        simp only at h
+        by_cases c3 : jumpLen ≥ tr.size
+        · simp only [c3, if_true, Prod.mk.injEq, rej, Except.error.injEq] at h
+          obtain ⟨rfl, rfl⟩ := h
+          exact ⟨k2, k1, k3, k4, Or.inr (Or.inr rfl)⟩
+        · simp only [c3, if_false] at h
+          by_cases c4 : tr.fixedLen > tr.size
+          · simp only [c4, if_true, Prod.mk.injEq, rej, Except.error.injEq] at h
+            obtain ⟨rfl, rfl⟩ := h
+            exact ⟨k2, k1, k3, k4, Or.inr (Or.inr rfl)⟩
+          · simp [c4, pure, Except.pure] at h
+
+/-- what every rejected configuration call guarantees about the state it leaves (`g` before, `g'` after, target `t`) -/
+structure RejectedNoop (g g' : G) (t repl : Nat) : Prop where
+  /-- no origin placeholder was written -/
+  tramp : g'.tramp = g.tramp
+  /-- a target that was not mocked is still not mocked -/
+  not_mocked : ∀ f, mocked g f = false → mocked g' f = false
+  /-- the registry is unchanged, or holds exactly one new inert entry (incomplete, never applied) for the target -/
+  registry : g'.patches = g.patches ∨ g'.patches = upd g.patches t (some ⟨repl, false, false⟩)
+  /-- unless an APPLIED patch of this very target was registered (then patch.go:106 restores it first),
+      the image is identical and not a single write happened -/
+  text : (∀ p, g.patches t = some p → p.applied = false) → g'.text = g.text ∧ g'.writes = g.writes
+
+theorem RejectedNoop.refl (g : G) (t repl : Nat) : RejectedNoop g g t repl :=
+  ⟨rfl, fun _ h => h, Or.inl rfl, fun _ => ⟨rfl, rfl⟩⟩
+
+/-- mocker.go:90 `applyByFunc` (Apply / Return / When of functions and methods all end here): a rejection is either
+    raised before `replaceFunc` — then the state is untouched — or inside it, with the guarantees of
+    `replaceFunc_rejected`.  In particular `guard.Apply()` (the only writer of a jump) is never reached. -/
+theorem applyByFunc_rejected (g g' : G) (tg : Target) (cb : V) (o : OriginV) (repl : Nat) (e : Rej)
+    (h : applyByFunc g tg cb o repl = (g', .error e)) :
+    RejectedNoop g g' tg.id repl ∧
+    (g' = g ∨ (e.cls = .funcSmall ∨ e.cls = .alreadyPatched ∨ e.cls = .trampSmall)) := by
+  unfold applyByFunc at h
+  cases h1 : checkTrampolineFunc o with
+  | error e1 =>
+    simp only [h1, Prod.mk.injEq, Except.error.injEq] at h
+    obtain ⟨rfl, rfl⟩ := h
+    exact ⟨RejectedNoop.refl _ _ _, Or.inl rfl⟩
+  | ok tr =>
+    simp only [h1] at h
+    cases h2 : patchValueChecks (.fn tg.sig) cb with
+    | error e2 =>
+      simp only [h2, Prod.mk.injEq, Except.error.injEq] at h
+      obtain ⟨rfl, rfl⟩ := h
+      exact ⟨RejectedNoop.refl _ _ _, Or.inl rfl⟩
+    | ok u =>
+      simp only [h2] at h
+      cases h3 : replaceFunc g tg.id tg.fsize repl tr with
+      | mk g1 r =>
+        cases r with
+        | error e3 =>
+          simp only [h3, Prod.mk.injEq, Except.error.injEq] at h
+          obtain ⟨rfl, rfl⟩ := h
+          have ⟨a, b, c, d, f⟩ := replaceFunc_rejected _ _ _ _ _ _ _ h3
+          refine ⟨⟨a, ?_, Or.inr c, d⟩, Or.inr f⟩
+          intro x hx
+          cases hm : mocked g1 x with
+          | false => rfl
+          | true => rw [b x hm] at hx; cases hx
+        | ok u2 => simp [h3, pure, Except.pure] at h
+
+/-- **Rejected ⇒ nothing happened** for `Func(f)[.Origin(o)].Apply/Return/When[.Return]` (mocker.go:438-520):
+    whatever the action, the signatures, the values, the placeholder and the prior state, the call that is rejected
+    leaves the state it started from (for `When(ok).Return(bad)` that is the state the accepted `When` produced) with
+    the guarantees of `RejectedNoop`, and the target behaves exactly as before. -/
+theorem funcCall_rejected (g : G) (tg : Target) (pre : Beh) (o : OriginV) (repl : Nat) (act : Action) (e : Rej)
+    (h : (funcCall g tg pre o repl act).res = .error e) :
+    RejectedNoop (funcCall g tg pre o repl act).gBefore (funcCall g tg pre o repl act).g tg.id repl ∧
+    (funcCall g tg pre o repl act).beh = (funcCall g tg pre o repl act).behBefore := by
+  cases act with
+  | apply cb =>
+    simp only [funcCall] at h ⊢
+    cases h1 : applyByFunc g tg cb o repl with
+    | mk g1 r =>
+      simp only [h1] at h ⊢
+      subst h
+      exact ⟨(applyByFunc_rejected _ _ _ _ _ _ _ h1).1, by first | trivial | rfl⟩
+  | ret vals =>
+    simp only [funcCall] at h ⊢
+    cases h0 : createWhen tg.sig none (firstReturnValues vals) false with
+    | error e0 => simp only [h0]; exact ⟨RejectedNoop.refl _ _ _, by first | trivial | rfl⟩
+    | ok w =>
+      simp only [h0] at h ⊢
+      cases h1 : applyByFunc g tg (.fn tg.sig) o repl with
+      | mk g1 r =>
+        simp only [h1] at h ⊢
+        subst h
+        exact ⟨(applyByFunc_rejected _ _ _ _ _ _ _ h1).1, by first | trivial | rfl⟩
+  | when_ args ret =>
+    simp only [funcCall] at h ⊢
+    cases h0 : createWhen tg.sig args none false with
+    | error e0 => simp only [h0]; exact ⟨RejectedNoop.refl _ _ _, by first | trivial | rfl⟩
+    | ok w =>
+      simp only [h0] at h ⊢
+      cases h1 : applyByFunc g tg (.fn tg.sig) o repl with
+      | mk g1 r =>
+        cases r with
+        | error e1 =>
+          simp only [h1]
+          exact ⟨(applyByFunc_rejected _ _ _ _ _ _ _ h1).1, by first | trivial | rfl⟩
+        | ok u =>
+          simp only [h1] at h ⊢
+          cases ret with
+          | none => simp [pure, Except.pure] at h
+          | some vals =>
+            simp only at h ⊢
+            cases h2 : whenReturn w tg.sig vals with
+            | error e2 => simp only [h2]; exact ⟨RejectedNoop.refl _ _ _, by first | trivial | rfl⟩
+            | ok w2 => simp [h2, pure, Except.pure] at h
+
+/-- the same for `Struct(s).Method(name).Apply/Return/When` (mocker.go:199-330) -/
+theorem methodCall_rejected (g : G) (name : String) (found : Bool) (tg : Target) (repl : Nat) (act : Action) (e : Rej)
+    (h : (methodCall g name found tg repl act).res = .error e) :
+    RejectedNoop (methodCall g name found tg repl act).gBefore (methodCall g name found tg repl act).g tg.id repl ∧
+    (methodCall g name found tg repl act).beh = (methodCall g name found tg repl act).behBefore := by
+  unfold methodCall at h ⊢
+  by_cases hn : name = ""
+  · simp only [hn, if_true]; exact ⟨RejectedNoop.refl _ _ _, by first | trivial | rfl⟩
+  · by_cases hf : found = true
+    · simp only [hn, hf, if_false, Bool.not_true, Bool.false_eq_true] at h ⊢
+      cases act with
+      | apply cb =>
+        simp only at h ⊢
+        cases h1 : applyByFunc g tg cb .none repl with
+        | mk g1 r =>
+          simp only [h1] at h ⊢
+          subst h
+          exact ⟨(applyByFunc_rejected _ _ _ _ _ _ _ h1).1, by first | trivial | rfl⟩
+      | ret vals =>
+        simp only at h ⊢
+        cases h0 : createWhen tg.sig none (firstReturnValues vals) true with
+        | error e0 => simp only [h0]; exact ⟨RejectedNoop.refl _ _ _, by first | trivial | rfl⟩
+        | ok w =>
+          simp only [h0] at h ⊢
+          cases h1 : applyByFunc g tg (.fn tg.sig) .none repl with
+          | mk g1 r =>
+            simp only [h1] at h ⊢
+            subst h
+            exact ⟨(applyByFunc_rejected _ _ _ _ _ _ _ h1).1, by first | trivial | rfl⟩
+      | when_ args ret =>
+        simp only at h ⊢
+        cases h0 : createWhen tg.sig args none true with
+        | error e0 => simp only [h0]; exact ⟨RejectedNoop.refl _ _ _, by first | trivial | rfl⟩
+        | ok w =>
+          simp only [h0] at h ⊢
+          cases h1 : applyByFunc g tg (.fn tg.sig) .none repl with
+          | mk g1 r =>
+            cases r with
+            | error e1 =>
+              simp only [h1]
+              exact ⟨(applyByFunc_rejected _ _ _ _ _ _ _ h1).1, by first | trivial | rfl⟩
+            | ok u =>
+              simp only [h1] at h ⊢
+              cases ret with
+              | none => simp [pure, Except.pure] at h
+              | some vals =>
+                simp only at h ⊢
+                cases h2 : whenReturn w tg.sig vals with
+                | error e2 => simp only [h2]; exact ⟨RejectedNoop.refl _ _ _, by first | trivial | rfl⟩
+                | ok w2 => simp [h2, pure, Except.pure] at h
+    · simp only [hn, hf, if_false, Bool.not_false, if_true]; exact ⟨RejectedNoop.refl _ _ _, by first | trivial | rfl⟩
 
 end C13
